@@ -17,7 +17,7 @@ def r1_store_key_is_lookup_key(ctx):
     for cls in A.cache_classes(ctx.repo):
         for m, st, w, key in cache_stores(ctx, cls):
             rv = recv_name(m)
-            params = [p for p in m.params if p != rv]
+            params = [p for p in m.params if p != rv][:1]
             ctx.touch(m)
             shapes = key_shapes(m.node, key, params)
             tname = "the dict" if w.attr == DICT else f"`{w.attr}`"
